@@ -896,7 +896,7 @@ class BuilderSim:
     def maybe_meta(self):
         ch = self.ctx.ch
         if self.features.get("meta", True) and ch.coin(1, 5, "meta"):
-            return {"m": ch.pick([1, "s", [1, {"x": None}], {"k": "né"}, 2 ** 60, 1.5, True], "meta-val")}
+            return {"m": ch.pick([1, "s", [1, {"x": None}], {"k": "né"}, 2 ** 60, 1.5, True, "a<b & c>d"], "meta-val")}
         return None
 
     def step_leaf(self, a: Actor):
